@@ -264,7 +264,14 @@ func main() {
 	case "pure":
 		runPure(os.Args[2:])
 	default:
+		if f, ok := extraCommands[os.Args[1]]; ok {
+			f(os.Args[2:])
+			return
+		}
 		fmt.Println("unknown command")
 		os.Exit(2)
 	}
 }
+
+// extraCommands: further sub-commands (one file each) register themselves here from init().
+var extraCommands = map[string]func(args []string){}
